@@ -320,7 +320,9 @@ FixStep ==
                   /\ r.out.recovered = PairSet(Ev.out.recovered)
            c01 == clean /\ WithinBounds(C, fs, par)
        IN /\ Follow(Ev.state, r.par)
-          /\ diag' = IF "expect_c01" \in DOMAIN a /\ ~c01 THEN <<"C01-precondition-not-met", l, [clean |-> clean, within |-> WithinBounds(C, fs, par)]>>
+          /\ diag' = IF "goal" \in DOMAIN a /\ a.goal \notin UNION {r.R[q].path : q \in DOMAIN r.R}
+                     THEN <<"witness-goal-not-covered", l, a.goal, UNION {r.R[q].path : q \in DOMAIN r.R}>>
+                     ELSE IF "expect_c01" \in DOMAIN a /\ ~c01 THEN <<"C01-precondition-not-met", l, [clean |-> clean, within |-> WithinBounds(C, fs, par)]>>
                      ELSE IF okF /\ okP /\ okC /\ okO THEN <<>>
                      ELSE <<"Fix", l, [okF |-> okF, okP |-> okP, okC |-> okC, okO |-> okO],
                             IF ~okF THEN r.fs ELSE <<>>, IF ~okP THEN r.par ELSE <<>>, r.out, Ev.out>>
